@@ -641,6 +641,45 @@ def rule_wrapnode(ctx, rep):
     r.note("%d self-wrapping variants with a delimiter production" % n)
 
 
+def rule_durprec(ctx, rep, rid="R-C10-durprec"):
+    """A duration is written from one accessor of time::Duration.  An accessor that counts whole seconds (or minutes, hours, days,
+    weeks) drops the sub-second part, so a writer that uses one must also read the sub-second part (subsec_*) - otherwise `T#60.5s`
+    is written as a text that parses to 60 s.  (whole_milliseconds drops what is below a millisecond: recorded under not_decided.)"""
+    r = rep.rule(rid, "the duration writer never derives its number from whole seconds or a coarser unit alone: a function under visit_duration_literal that "
+                      "calls Duration::whole_seconds/minutes/hours/days/weeks also reads the sub-second part", floor=1, floor_what="Duration accessor calls under visit_duration_literal")
+    start = [b for b in ctx.prog.bodies.values() if b.f["crate"] == "ironplc_plc2plc" and b.f["name"] == "visit_duration_literal"]
+    if not start:
+        rep.error(rid, "visit_duration_literal not found in the renderer")
+        return
+    seen, st = {}, list(start)
+    while st:
+        b = st.pop()
+        if b.id in seen:
+            continue
+        seen[b.id] = b
+        for c in b.calls():
+            if c.callee and c.callee.startswith("ironplc_plc2plc::") and not c.callee.endswith(("write_ws", "::write")):
+                st.extend(ctx.prog.get(c.callee) or [])
+        st.extend(cb for cb in ctx.prog.bodies.values() if cb.f["dk"] == "Closure" and cb.f.get("parent") == b.id)
+    n = 0
+    for bid, b in sorted(seen.items()):
+        acc = [(c, (c.callee or "").split("::")[-1]) for c in b.calls() if (c.callee or "").startswith("time::duration::Duration::")]
+        coarse = [(c, a) for c, a in acc if a in ("whole_seconds", "whole_minutes", "whole_hours", "whole_days", "whole_weeks", "as_seconds_f32")]
+        fine = [a for c, a in acc if a.startswith("subsec_") or a in ("whole_milliseconds", "whole_microseconds", "whole_nanoseconds", "as_seconds_f64")]
+        sub = [a for a in fine if a.startswith("subsec_")]
+        n += len(acc)
+        fn = norm(b.id).split("::")[-1]
+        for k, (c, a) in enumerate(coarse, 1):
+            if sub:
+                r.ok("%s|%s#%d" % (fn, a, k), loc_str(b.f, c.loc), "together with %s" % ", ".join(sorted(set(sub))))
+            else:
+                r.finding("%s|%s#%d|sub-second part not read" % (fn, a, k), loc_str(b.f, c.loc), "the number written for a duration comes from %s() and the function never reads the "
+                          "sub-second part: `T#60.5s` is rendered as a text that parses to a different duration" % a)
+        for a in sorted(set(fine)):
+            r.ok("%s|%s" % (fn, a), "%s:%d" % (b.f["file"], b.f["line"]))
+    r.note("%d Duration accessor call(s) in %d function(s) under visit_duration_literal" % (n, len(seen)))
+
+
 def run(ctx, rep):
     rep.not_decided += ["parse(render(L)) == L itself (value-level)", "numeric formatting other than the fraction point of reals (durations truncated to whole ms)",
                         "separator/bracket completeness per production (design rule R-C10-sep not implemented: needs per-production token multisets)",
@@ -656,3 +695,7 @@ def run(ctx, rep):
     rule_fracpad(ctx, rep)
     rule_post(ctx, rep)
     rule_wrapnode(ctx, rep)
+    rule_durprec(ctx, rep)
+    # the renderer never parenthesises a unary expression: that is only right while the grammar binds unary operators tightest
+    from rules.c01 import rule_prec
+    rule_prec(ctx, rep, ctx.peg, rid="R-C10-prec")
